@@ -553,7 +553,7 @@ def atomic_rmw(n):
     if "atomic" not in c["qname"]:
         return None
     obj = kids(n)[0] if kids(n) else None
-    if match.this_field(obj) != "reference_count_":
+    if match.this_field(obj) != COUNT_FIELD[0]:
         return None
     name = c["name"]
     order = 5
@@ -568,13 +568,26 @@ def atomic_rmw(n):
     return None
 
 
+COUNT_FIELD = ["reference_count_"]       # the counter field of ReferenceCounter: its one integral data member, whatever its name
+
+
+def resolve_count_field(tu):
+    rec = tu.record(RC)
+    flds = [f for f in rec["fields"] if any(t in f["ty"] for t in ("atomic", "size_t", "unsigned", "long", "int"))]
+    if len(flds) != 1:
+        raise dtable.Undecidable("ReferenceCounter: the counter field is not unique (%s)" % [f["name"] for f in rec["fields"]])
+    COUNT_FIELD[0] = flds[0]["name"]
+    return flds[0]
+
+
 def check_refcounter(ck, tu):
+    resolve_count_field(tu)
     inc = tu.one(qname=RC + "::inc_reference")
     dec = tu.one(qname=RC + "::dec_reference")
     # inc: exactly one RMW that adds one, no other access
     rm = [atomic_rmw(x) for x in ir.walk(inc.body)]
     rm = [r for r in rm if r]
-    loads = [x for x in ir.walk(inc.body) if x["k"] == "MemberExpr" and match.this_field(x) == "reference_count_"]
+    loads = [x for x in ir.walk(inc.body) if x["k"] == "MemberExpr" and match.this_field(x) == COUNT_FIELD[0]]
     if len(rm) != 1 or rm[0][0] not in ("operator++", "operator++(post)", "fetch_add", "operator+=") or rm[0][2] != 1 or len(loads) != 1:
         ck.violation("RC-ATOMIC-RMW", inc.qname, "inc", "inc_reference is not a single atomic increment by one", inc.loc)
     else:
@@ -582,7 +595,7 @@ def check_refcounter(ck, tu):
     # dec: the returned decision must be the RMW's own result
     rets = [x for x in ir.walk(dec.body) if x["k"] == "ReturnStmt"]
     rmws = [(x, atomic_rmw(x)) for x in ir.walk(dec.body) if atomic_rmw(x)]
-    accesses = [x for x in ir.walk(dec.body) if x["k"] == "MemberExpr" and match.this_field(x) == "reference_count_"]
+    accesses = [x for x in ir.walk(dec.body) if x["k"] == "MemberExpr" and match.this_field(x) == COUNT_FIELD[0]]
     in_assert = set()
     for s in kids(dec.body):
         if s["k"] == "ConditionalOperator" and any(c.get("callee", {}).get("noreturn") for c in ir.walk(s) if "callee" in c):
@@ -605,6 +618,16 @@ def check_refcounter(ck, tu):
                     if not reassigned:
                         return through_locals(kids(v)[0], depth + 1)
         return e
+    if len(rets) > 1 and len(rmws) == 1 and len(accesses) == 1:
+        # if (--count != 0) return false; return true;   ->   one expression
+        body = [s_ for s_ in kids(dec.body) if not (s_ is not None and s_["k"] == "ConditionalOperator" and
+                                                    any(c_.get("callee", {}).get("noreturn") for c_ in ir.walk(s_) if "callee" in c_))]
+        body = [s_ for s_ in body if not (s_ is not None and s_["k"] in ("CXXStaticCastExpr", "CStyleCastExpr", "NullStmt", "ParenExpr") and
+                                          (s_.get("ty") == "void" or s_["k"] == "NullStmt"))]
+        whole = dtable.stmts_as_expr(body)
+        if whole is None:
+            raise dtable.Undecidable("%s: form of the release decision not understood (several returns)" % dec.loc)
+        rets = [{"k": "ReturnStmt", "id": -31, "ch": [whole]}]
     if len(rets) == 1 and len(rmws) == 1 and len(accesses) == 1:
         e = through_locals(kids(rets[0])[0])
         node, (kind, order, amt) = rmws[0]
@@ -612,7 +635,7 @@ def check_refcounter(ck, tu):
         def evalx(x, X):
             """the decision expression with the RMW's result replaced by the number X"""
             x = through_locals(x)
-            if x is node:
+            if x is node or (x is not None and x.get("id") == node["id"] and x["k"] == node["k"]):
                 return X
             c_ = const_int(x)
             if c_ is not None:
@@ -620,6 +643,11 @@ def check_refcounter(ck, tu):
             if x["k"] == "UnaryOperator" and x.get("op") == "!":
                 v_ = evalx(kids(x)[0], X)
                 return None if v_ is None else int(not v_)
+            if x["k"] == "ConditionalOperator":
+                c__ = evalx(kids(x)[0], X)
+                return None if c__ is None else evalx(kids(x)[1] if c__ else kids(x)[2], X)
+            if x["k"] == "ParenExpr":
+                return evalx(kids(x)[0], X)
             bb = match.binop(x, ("==", "!=", "<", "<=", ">", ">="))
             if bb:
                 l_, r_ = evalx(bb[1], X), evalx(bb[2], X)
@@ -652,7 +680,7 @@ def check_refcounter(ck, tu):
         ck.violation("RC-ATOMIC-RMW", dec.qname, "dec", why, dec.loc)
     # the counter field is atomic
     rec = tu.record(RC)
-    fld = [f for f in rec["fields"] if f["name"] == "reference_count_"]
+    fld = [f for f in rec["fields"] if f["name"] == COUNT_FIELD[0]]
     if not fld or not fld[0]["ty"].startswith("std::atomic<"):
         ck.violation("RC-ATOMIC-RMW", RC, "field", "reference_count_ is not a std::atomic", "tlx/counting_ptr.hpp")
     else:
@@ -660,7 +688,7 @@ def check_refcounter(ck, tu):
     # copies start at zero, assignment keeps the count
     for fn in tu.find(record=RC):
         if fn.kind == "ctor":
-            init = [i for i in fn.inits if i.get("field") == "reference_count_"]
+            init = [i for i in fn.inits if i.get("field") == COUNT_FIELD[0]]
             v = None
             if init:
                 for x in ir.walk(init[0]["e"]):
@@ -671,7 +699,7 @@ def check_refcounter(ck, tu):
             else:
                 ck.ok("RC-COPY-ZERO", "%s/%d" % (fn.qname, len(fn.params)), "reference_count_(0)")
         if fn.d.get("copy_assign"):
-            touched = [x for x in ir.walk(fn.body) if x["k"] == "MemberExpr" and match.this_field(x) == "reference_count_"]
+            touched = [x for x in ir.walk(fn.body) if x["k"] == "MemberExpr" and match.this_field(x) == COUNT_FIELD[0]]
             if touched:
                 ck.violation("RC-COPY-ZERO", fn.qname, "assign", "assignment of the pointee modifies its reference count", fn.loc)
             else:
